@@ -40,9 +40,9 @@ def gen_attrs(rng, w, rich=True):
         if kind != 'bool':
             w.add('=')
             if kind == 'class':
-                q = rng.choice(['"', '"', "'", ''])
+                q = rng.choice(['"', '"', "'", '', '{'])
                 body = rng.choice(['a', 'a b', 'foo  bar', ' a b ', 'a\tb\nc', '', 'x-1 y_2 z', 'a  ', ' '.join('c%d' % k for k in range(rng.randint(5, 14)))]) if q else rng.choice(['a', 'foo-bar', 'item', 'a-very-long-class-name'])
-                val = q + body + q
+                val = q + body + ('}' if q == '{' else q)
             elif kind == 'dq':
                 val = '"%s"' % rng.choice(['a > b', '', 'x/y', '</div>', '<b>', "it's", 'a=b c', ' ', '/>', 'é ü', '{x}', '-->'])
             elif kind == 'sq':
